@@ -4,6 +4,7 @@ import (
 	"go/token"
 	"go/types"
 	"sort"
+	"strings"
 
 	"golang.org/x/tools/go/ssa"
 
@@ -297,6 +298,43 @@ func (c *Ctx) c08Enforcer(pm *pairModel) {
 				}
 			}
 		})
+	}
+	// the back-reference from a message to its list element is the enforcer's record of "this
+	// message is registered": it is written when the message is pushed and by nothing else. The
+	// removal branch reads it (nil = delivery still pending, the size is not subtracted), so a
+	// second writer that clears it makes an eviction and a pending removal each leave the
+	// subtraction to the other
+	if elT := p.Named("pkg/storage/mem", "Message"); elT != nil {
+		if st, ok := elT.Underlying().(*types.Struct); ok {
+			for i := 0; i < st.NumFields(); i++ {
+				f := st.Field(i)
+				pt, isP := f.Type().(*types.Pointer)
+				if !isP {
+					continue
+				}
+				if n, isN := pt.Elem().(*types.Named); !isN || n.Obj().Pkg() == nil || n.Obj().Pkg().Path() != "container/list" || n.Obj().Name() != "Element" {
+					continue
+				}
+				var other []string
+				nW := 0
+				for _, s2 := range eng.StoresToField(pkgFuncs(p, "pkg/storage/mem"), f) {
+					if _, fresh := s2.Addr.X.(*ssa.Alloc); fresh {
+						continue
+					}
+					nW++
+					pc, isCall := s2.Store.Val.(*ssa.Call)
+					if !isCall || eng.CalleeName(pc.Common()) != "(*container/list.List).PushBack" {
+						other = append(other, p.InstrPos(s2.Store))
+					}
+				}
+				sort.Strings(other)
+				if len(other) > 0 {
+					r.Bad("C08/ENFORCER/shape", cons+":registration-mark", other[0], "Message.%s is written at %s by something other than the registration (PushBack): the removal branch takes a cleared mark for a delivery that is still pending and skips the subtraction, while the eviction that cleared it skipped it too — the byte account drifts upward and the enforcer later evicts mail from a store that is under its limit", f.Name(), strings.Join(other, ", "))
+				} else if nW > 0 {
+					r.Ok("C08/ENFORCER/shape", cons+":registration-mark", "", "Message.%s is written only by the registration (PushBack)", f.Name())
+				}
+			}
+		}
 	}
 	if len(pushBack) == 1 && len(adds) == 1 && pushBack[0].Parent() == adds[0].Parent() && eng.Dominates(pushBack[0], adds[0]) {
 		r.Ok("C08/ENFORCER/shape", cons+":add", p.InstrPos(adds[0]), "push is followed by curSize += Size()")
